@@ -619,7 +619,7 @@ static TNode build(const DNode &D, int pct, std::vector<int> path, std::vector<S
     }
   } else {
     for (auto &k : D.kids)
-      if (needs_user(k) || rbool(pct)) chosen.push_back(&k);
+      if (needs_user(k) || ri(0, 99) >= 100 - pct) chosen.push_back(&k);  // shrinks towards 'not mentioned'
   }
   if (chosen.size() > 1 && rbool(50)) {
     std::vector<int> p = rperm(int(chosen.size()));
